@@ -420,6 +420,14 @@ def discharge(o, hyps, pool, budget_ms=20000):
                 backend = 'sign/coefficients'
             except Exception:
                 t = None
+        if t is None and goal.op in ('le', 'lt', 'ge', 'gt'):
+            try:
+                sg = normal.sqrt_monotone_sign(d)
+            except Exception:
+                sg = None
+            t2 = _cmp_from_sign(goal.op, sg)
+            if t2 is True:
+                t, backend = True, 'sign/sqrt-monotone'
         if t is True:
             return dict(status='proved', backend=backend, seconds=time.time() - t0, witness=None, detail='')
         if t is False and pts:
